@@ -70,7 +70,9 @@ def wrappers(rep):
             # left unconfirmed so that the report's battery (if any) can still confirm it
             o.detail += "; native fault plans: " + str(det)
     try:
-        C05_e2.add(rep, oblig.Ctx(), replayer)
+        ctxw = oblig.Ctx()
+        C05_e2.add(rep, ctxw, replayer)
+        C05_e2.reflink_protocol(rep, ctxw)
     except Inconclusive as ex:
         o = Obligation("file-system wrappers", "E2 mirsym/z3")
         o.verdict, o.detail = "inconclusive", str(ex)
